@@ -140,6 +140,16 @@ theorem C16_arity_fixed :
 no colour for Pattern. -/
 theorem C16_initial_colour (sp : Space) : initialColour sp = isoInit sp := initialColour_eq_iso sp
 
+/-- The bound of `_initial_color` (regenerated constant `initMaxComponents`): a "colour space" with more than
+32 components (a damaged /N of an ICC profile) gets no initial colour - for every family; 32 components
+(the ISO limit for DeviceN) still get theirs. -/
+theorem C16_initial_colour_bound (sp : Space) (h : sp.n > 32) :
+    initialColour sp = none ∧ initialColour ⟨"DeviceN", 32⟩ = some (.comps (List.replicate 32 1)) := by
+  refine ⟨?_, by decide +kernel⟩
+  rw [initialColour_eq_iso]
+  unfold isoInit
+  simp [h]
+
 /-- `cs`/`CS` on a known colour space select the space and its ISO initial colour; nothing else changes. -/
 theorem C16_cs_resets_colour (st : IState) (name : String) (sp : CSpace) (h : csLookup st.csmap name = some sp) :
     ∃ st', call .cs [.name name] st = .ok st' ∧ st'.gs.ncolor = isoInit sp ∧ st'.gs.ncs = sp.n ∧
